@@ -429,22 +429,23 @@ theorem step_rfb {s s' : State} {r : Res} {c : Nat} (h : step s (.rfb c) = .ok (
     exact ⟨cx, hc, (Prod.mk.inj h).2.symm⟩
 
 theorem remapAll_pres (π : Nat) (ids : List Nat) : ∀ (plan : List (Nat × Nat × Nat)) (s s' : State),
-    PInv s.ps s.devs s.pool.frees s.pt → remapAll π ids plan s = .ok s' → Pres π s s' := by
+    PInv s.ps s.devs s.pool.frees s.pt → MirrorWeak s.mirror s.pt → remapAll π ids plan s = .ok s' → Pres π s s' := by
   intro plan
   induction plan with
-  | nil => intro s s' hP h; simp [remapAll] at h; subst h; exact Pres.refl hP
+  | nil => intro s s' hP _ h; simp [remapAll] at h; subst h; exact Pres.refl hP
   | cons r rest ih =>
-    intro s s' hP h
+    intro s s' hP hM h
     obtain ⟨a, b, i⟩ := r
     simp only [remapAll] at h
     split at h
     · simp at h
     · rename_i s1 h1
-      have p1 := remap_pres hP h1
-      exact p1.trans (ih s1 s' p1.1 h)
+      have p1 := remap_pres hP hM h1
+      exact p1.trans (ih s1 s' p1.1 (remap_ext hM h1).1 h)
 
 theorem distribute_pres {s s' : State} {π addr bytes : Nat} {ids bs : List Nat}
-    (hP : PInv s.ps s.devs s.pool.frees s.pt) (h : distribute s π addr bytes ids = .ok (bs, s')) : Pres π s s' := by
+    (hP : PInv s.ps s.devs s.pool.frees s.pt) (hM : MirrorWeak s.mirror s.pt)
+    (h : distribute s π addr bytes ids = .ok (bs, s')) : Pres π s s' := by
   unfold distribute at h
   split at h
   · injection h with h; obtain ⟨_, rfl⟩ := Prod.mk.inj h; exact Pres.refl hP
@@ -456,7 +457,7 @@ theorem distribute_pres {s s' : State} {π addr bytes : Nat} {ids bs : List Nat}
         · simp at h
         · rename_i s1 h1
           injection h with h; obtain ⟨_, rfl⟩ := Prod.mk.inj h
-          exact remapAll_pres π ids _ s _ hP h1
+          exact remapAll_pres π ids _ s _ hP hM h1
 
 theorem allocate_ok {s s' : State} {π bytes d v : Nat}
     (h : allocate s π bytes d = .ok (v, s')) :
@@ -545,11 +546,11 @@ theorem step_w {n : Nat} {s s' : State} {op : Op} {r : Res} (hW : WInv s) (hG : 
   | remap c addr bytes d =>
     obtain ⟨cx, _, h1⟩ := step_remap h
     obtain ⟨m, f, _⟩ := remap_ext hW.mw h1
-    exact ⟨hW.of_frame f (remap_pres hW.phys h1).1 m, hG.of_devs f.devs⟩
+    exact ⟨hW.of_frame f (remap_pres hW.phys hW.mw h1).1 m, hG.of_devs f.devs⟩
   | dist c addr bytes ids =>
     obtain ⟨cx, bs, _, h1⟩ := step_dist h
     obtain ⟨m, f, _⟩ := distribute_ext hW.mw h1
-    exact ⟨hW.of_frame f (distribute_pres hW.phys h1).1 m, hG.of_devs f.devs⟩
+    exact ⟨hW.of_frame f (distribute_pres hW.phys hW.mw h1).1 m, hG.of_devs f.devs⟩
   | mig c v g =>
     obtain ⟨cx, no, _, h1⟩ := step_mig h
     have hg : ∀ dv, s.devs[g + 1]? = some dv → dv.kind ≠ .unified := by
